@@ -290,4 +290,13 @@ func H_C08_Received(v *verifrt.T) {
 	}
 	v.Assert(n == want, "C08.O5 the receiver reports exactly the number of leading parts it has on record")
 	v.Reach("answered")
+	// the same question about a NEWER version of the name (other hash): nothing
+	// of it has been received, whatever is known about the older version —
+	// on record, or delivered and remembered
+	h2 := v.Version("v2", size)
+	n2 := e.s.Received([]sts.Binned{
+		&vBinned{name: "a", hash: h2, size: size, beg: 0, end: m, t: mt},
+		&vBinned{name: "a", hash: h2, size: size, beg: m, end: size, t: mt},
+	})
+	v.Assert(n2 == 0, "C08.O5 parts of a new version are not reported as received on the strength of an older version of that name")
 }
